@@ -161,8 +161,8 @@ PROPS = {
     "C17": {
         "title": "Schema guard",
         "modules": ["Props.C17"],
-        "quick": {"profiles": [("guard", 8, 20)]},
-        "thorough": {"profiles": [("guard", 16, 250)]},
+        "quick": {"profiles": [("guard", 8, 20), ("async", 16, 2)]},
+        "thorough": {"profiles": [("guard", 16, 250), ("async", 16, 20)]},
         "target": has(("reshape", "create ")),
         "design_ref": "5/C17",
     },
